@@ -40,6 +40,10 @@ pub struct SimkCase {
     pub string_variant: bool,
     /// the child terminates on its own (no Flood / endless silence)
     pub finite: bool,
+    /// as Exec::capture does: after the exchange the parent waits for the child
+    /// while the Communicator (and whatever it still holds) is alive
+    #[serde(default)]
+    pub wait_before_drop: bool,
 }
 
 #[derive(Clone, Debug)]
@@ -295,6 +299,12 @@ pub fn run_simk(case: &SimkCase) -> Outcome {
                 break;
             }
         }
+        if case.wait_before_drop && finished && finite {
+            let sim = unsafe { &mut *simp };
+            if sim.verdict.is_none() && sim.wait_child() == Some(false) {
+                sim.verdict = Some(Verdict::Deadlock(format!("parent blocked in waitpid() after the exchange (the Communicator is still alive, as in capture()) while child is {:?} at script op {}", sim.cstate, sim.pc)));
+            }
+        }
         drop(comm);
     }));
     ip::IN_LIB.store(false, std::sync::atomic::Ordering::SeqCst);
@@ -402,7 +412,9 @@ pub fn judge_c01(case: &SimkCase, o: &Outcome) -> CaseResult {
     common_checks("C01", case, o)?;
     match &o.verdict {
         Some(Verdict::Deadlock(d)) => {
-            let kind = if d.contains("write(stdin)") {
+            let kind = if d.contains("waitpid()") {
+                "parent-in-wait"
+            } else if d.contains("write(stdin)") {
                 "parent-in-write"
             } else if d.contains("read(") {
                 "parent-in-read"
@@ -831,6 +843,20 @@ fn script_strategy(cap: u32, allow_flood: bool) -> BoxedStrategy<(String, Vec<CO
         0..14,
     )
     .prop_map(|s| ("random-ops".to_string(), s, true));
+    let close_outputs_first = (chunk_strategy(), prop_oneof![Just(0u64), sleep_ns()], any::<bool>()).prop_map(|(c, d, partial)| {
+        // done with its output before it has looked at its input (think `head -1` in reverse)
+        let mut s = vec![];
+        if partial {
+            s.push(COp::Write { to: 1, n: 10 });
+        }
+        s.push(COp::Close(1));
+        s.push(COp::Close(2));
+        if d > 0 {
+            s.push(COp::Sleep(d));
+        }
+        s.push(COp::ReadAll(c));
+        ("close-outputs-then-read".to_string(), s, true)
+    });
     let select_loop = (out_stream(), chunk_strategy(), any::<bool>()).prop_map(|(to, chunk, tail)| {
         // a child that keeps producing output while it waits for its input
         let mut s = vec![COp::FloodUntilInput { to, chunk, need: 0 }];
@@ -853,13 +879,13 @@ fn script_strategy(cap: u32, allow_flood: bool) -> BoxedStrategy<(String, Vec<CO
         prop_oneof![
             2 => silent, 2 => cat, 2 => consume_then_answer, 2 => answer_first, 2 => pingpong, 1 => interleaved,
             2 => early_close, 1 => early_exit, 4 => trickle, 4 => close_in_full, 2 => random_ops,
-            4 => flood, 2 => silent_forever, 3 => late
+            4 => flood, 2 => silent_forever, 3 => late, 1 => close_outputs_first
         ]
         .boxed()
     } else {
         prop_oneof![
             2 => silent, 4 => cat, 4 => consume_then_answer, 5 => answer_first, 4 => pingpong, 3 => interleaved,
-            3 => early_close, 2 => early_exit, 2 => trickle, 2 => close_in_full, 4 => random_ops, 3 => select_loop
+            3 => early_close, 2 => early_exit, 2 => trickle, 2 => close_in_full, 4 => random_ops, 3 => select_loop, 2 => close_outputs_first
         ]
         .boxed()
     }
@@ -977,7 +1003,9 @@ pub fn case_strategy(focus: Focus) -> impl Strategy<Value = SimkCase> {
             )
         })
         .prop_map(move |((streams, caps, flavour, content), (template, script, finite), ilen, iseed, (sched, tail), sr, sw, reads, sv, cost, eintr)| {
-            let string_variant = sv && focus == Focus::C02 && reads.len() == 1;
+            // text front end: C02 compares it with the lossy decoding of the bytes (one unlimited read);
+            // under C03 it is read piecewise with limits (empty-only-at-EOF and delivery of the input still apply)
+            let string_variant = sv && ((focus == Focus::C02 && reads.len() == 1) || focus == Focus::C03);
             let mut reads = reads;
             if !finite {
                 // a never-ending child: every read needs a time limit
@@ -999,6 +1027,7 @@ pub fn case_strategy(focus: Focus) -> impl Strategy<Value = SimkCase> {
                 reads,
                 string_variant,
                 finite,
+                wait_before_drop: focus == Focus::C01 && iseed % 2 == 0,
             }
         })
 }
